@@ -117,6 +117,8 @@ class Run:
             return
         writes = dict(values.GLOBAL_WRITES)
         writes.update(self.global_writes)
+        for k, v in values.GLOBAL_READS.items():
+            writes['read of the rebindable module variable ' + k] = v
         name = '%s/frame/no-module-level-state-is-written' % self.pid
         fn = 'every function executed under contract'
         if not writes:
